@@ -142,7 +142,7 @@ func (g *gen) examples(n map[string]any, depth int) []any {
 				lists = append(lists, g.strings(depth))
 			}
 		case "number", "integer":
-			lists = append(lists, []any{1, 0})
+			lists = append(lists, []any{1, 0, -1})
 		case "boolean":
 			lists = append(lists, []any{true, false})
 		case "null":
